@@ -7,7 +7,7 @@ Import ListNotations.
 (** * Histories: every value held, and every answer, is the specification's
       value under the current definitions and inputs *)
 Theorem history_correct fuel cells refs maxd ops xs st :
-  defs_ok cells -> ops_ok ops ->
+  ops_ok ops ->
   run fuel (init cells refs maxd) ops = (xs, st) -> no_fuel_out xs -> s_reent st = false ->
   Quiet st /\
   (forall i v, lookup_data (s_data st) i = Some v ->
@@ -15,8 +15,8 @@ Theorem history_correct fuel cells refs maxd ops xs st :
   (forall i r st', eval_top fuel st i = (r, st') -> r <> OutOfFuel ->
      agrees r (fun g => spec_eval g st i)).
 Proof.
-  intros Hok Hops Hrun Hnf Hre.
-  destruct (run_quiet _ _ _ _ _ Hrun Hnf (Quiet_init cells refs maxd Hok) eq_refl Hops) as [R|Q]; [congruence|].
+  intros Hops Hrun Hnf Hre.
+  destruct (run_quiet _ _ _ _ _ Hrun Hnf (Quiet_init cells refs maxd) eq_refl Hops) as [R|Q]; [congruence|].
   split; [exact Q|]. destruct Q as ((HI & _) & _). split.
   - exact (proj2 HI).
   - intros i r st' H Hr. now destruct (eval_top_sim _ _ _ _ _ H Hr HI) as (_ & _ & A).
@@ -122,7 +122,7 @@ Theorem traceback_outermost fuel st i k st' cl :
 Proof.
   intros H HI Hs El. unfold eval_top in H. rewrite El in H.
   destruct (if cl_cached cl then lookup_data (s_data st) i else None) eqn:Eh; [inversion H|].
-  set (st0 := upd_rolled (upd_err st None) []) in *.
+  set (st0 := upd_taint (upd_rolled (upd_err st None) []) 0) in *.
   destruct (eval_formula fuel st0 cl i) as [[v|k'|] st1] eqn:Ef; inversion H; subst k' st'. clear H.
   destruct fuel as [|f]; [simpl in Ef; inversion Ef|]. simpl in Ef.
   change (s_maxdepth st0) with (s_maxdepth st) in Ef. change (s_stack st0) with (s_stack st) in Ef.
@@ -138,7 +138,8 @@ Proof.
   destruct rb as [v|kb|]; [|inversion Ef; subst; destruct (Hroll ln) as (rest & E);
                              exists ln, rest; simpl; rewrite E; auto|congruence].
   assert (Ef' : (@Err val KNone, rollback_frame st2 0) = (@Err val k, st1) /\ v = VNone).
-  { destruct (cl_cached cl).
+  { destruct (tainted st2); [destruct v as [z|]; [inversion Ef|]; destruct (cl_allow_none cl); [inversion Ef|]; auto|].
+    destruct (cl_cached cl).
     - unfold store_value in Ef.
       destruct v as [z|]; [inversion Ef|]. destruct (cl_allow_none cl); [inversion Ef|]. auto.
     - destruct v as [z|]; [inversion Ef|]. destruct (cl_allow_none cl); [inversion Ef|]. auto. }
